@@ -141,12 +141,14 @@ type hardItem struct {
 }
 
 type caseResult struct {
-	vioRef    int // index of the blob the violation is about (-1 unknown)
-	items []hardItem // set when EVERY immediate violation was classified
-	violation string
-	inconcl   string
+	vioRef     int        // index of the blob the violation is about (-1 unknown)
+	items      []hardItem // set when EVERY immediate violation was classified
+	violation  string
+	inconcl    string
 	overlapMut bool
-	history   []string
+	// the per-ref history is linearizable once the reads that overlap a RemoveBlobs of that ref are left out
+	onlyReadsDuringRemove bool
+	history               []string
 }
 
 func runProgram(tree *vcompose.Node, pool []vgen.Blob, prog program, yieldSeed uint64) (res caseResult) {
@@ -190,7 +192,7 @@ func runProgram(tree *vcompose.Node, pool []vgen.Blob, prog program, yieldSeed u
 	var mu sync.Mutex
 	var all []obs
 	var hist []string
-	var hard []string // immediate (non-linearizability) violations
+	var hard []string    // immediate (non-linearizability) violations
 	var items []hardItem // classified immediate violations (those not classified make len(hard) > len(items))
 	record := func(o ...obs) {
 		mu.Lock()
@@ -460,6 +462,22 @@ func runProgram(tree *vcompose.Node, pool []vgen.Blob, prog program, yieldSeed u
 			}
 			res.vioRef = ix
 			res.violation = fmt.Sprintf("history of blob #%d (%s) is not linearizable against a present/absent register:\n  %s", ix, pool[ix].Ref, strings.Join(lines, "\n  "))
+			// is the contradiction confined to reads made WHILE a RemoveBlobs of this ref was running?
+			var relaxed []porcupine.Operation
+			for _, o := range list {
+				during := false
+				if o.kind == "read" {
+					for _, m := range list {
+						if m.kind == "remove" && m.call <= o.ret && o.call <= m.ret {
+							during = true
+						}
+					}
+				}
+				if !during {
+					relaxed = append(relaxed, porcupine.Operation{ClientId: o.client, Input: regInput{o.kind}, Output: regOutput{o.present}, Call: o.call, Return: o.ret})
+				}
+			}
+			res.onlyReadsDuringRemove = len(relaxed) < len(list) && porcupine.CheckOperationsTimeout(registerModel, relaxed, 20*time.Second) == porcupine.Ok
 			return
 		}
 	}
@@ -507,13 +525,32 @@ func knownSig(tree *vcompose.Node, prog program, res caseResult) string {
 	return ""
 }
 
+// removeTwoStepSig: proxycache removes a blob from its origin and from its cache one after the other;
+// while that RemoveBlobs runs, readers that go to the origin (enumerate) already miss the blob while
+// readers that look into the cache first (stat, fetch) still find it, in either order.
+// Signature: the tree contains a proxycache, the quiescent store is consistent, and the history of the
+// one violating ref is linearizable as soon as the reads that overlap a RemoveBlobs of that ref are left
+// out (every other contradiction is still reported).
+func removeTwoStepSig(tree *vcompose.Node, res caseResult) string {
+	if !res.onlyReadsDuringRemove || res.vioRef < 0 || len(res.items) > 0 {
+		return ""
+	}
+	for _, ty := range tree.Types() {
+		if ty == "proxycache" {
+			return "C14-proxycache-remove-visible-in-two-steps"
+		}
+	}
+	return ""
+}
+
 // itemsKnown: every immediate violation of the case is an instance of an OPEN finding:
-//   zeroed-read  (C14-diskpacked-fetch-during-remove-zeroes): diskpacked erases removed blobs in place while a
-//                concurrent Fetch already holds a reader over the region; the Fetch yields the right number of ZERO
-//                bytes. Needs: tree contains diskpacked, and the program removes that ref.
-//   recv-enoent  (C14-files-receive-lstat-after-concurrent-remove): files.ReceiveBlob re-stats the file after the
-//                rename; a concurrent remove of the same ref makes the receive report ENOENT. Needs: tree contains
-//                localdisk, and the program removes that ref.
+//
+//	zeroed-read  (C14-diskpacked-fetch-during-remove-zeroes): diskpacked erases removed blobs in place while a
+//	             concurrent Fetch already holds a reader over the region; the Fetch yields the right number of ZERO
+//	             bytes. Needs: tree contains diskpacked, and the program removes that ref.
+//	recv-enoent  (C14-files-receive-lstat-after-concurrent-remove): files.ReceiveBlob re-stats the file after the
+//	             rename; a concurrent remove of the same ref makes the receive report ENOENT. Needs: tree contains
+//	             localdisk, and the program removes that ref.
 func itemsKnown(tree *vcompose.Node, prog program, res caseResult) bool {
 	if len(res.items) == 0 {
 		return false
@@ -647,6 +684,9 @@ func TestConcurrentClients(t *testing.T) {
 			if id := replicaSig(tree, prog, res); id != "" && known.Hit(prop, id, tree.String()) {
 				t.Skip("known finding")
 			}
+			if id := removeTwoStepSig(tree, res); id != "" && known.Hit(prop, id, tree.String()) {
+				t.Skip("known finding")
+			}
 			writeCase(tree, pool, prog, res)
 			t.Fatalf("C14 violated: %s\nconfiguration: %s\npool: %v\nhistory:\n  %s", res.violation, tree, pool, strings.Join(res.history, "\n  "))
 		}
@@ -696,4 +736,3 @@ func writeCase(tree *vcompose.Node, pool []vgen.Blob, prog program, res caseResu
 	os.MkdirAll(dir, 0o755)
 	os.WriteFile(dir+"/last-violation.case.txt", []byte(fmt.Sprintf("configuration: %s\npool: %v\nprogram: %v\nviolation: %s\nhistory:\n%s\n", tree, pool, prog.Clients, res.violation, strings.Join(res.history, "\n"))), 0o644)
 }
-
